@@ -280,6 +280,25 @@ def lifetime(which: int, v: int, w: int) -> bool:
     return (ok and caller == snap) or fail(why='lifetime', which=which, caller=caller)
 
 
+def none_values(which: int, style: int) -> bool:
+    """a name bound to None (or 0 / '' / False) is bound: both reader spellings see the value, not "unbound""""
+    start()
+    which, style = concretize(which, 0, 4), concretize(style, 0, 1)
+    if which is OUT or style is OUT:
+        return True
+    val = [None, 0, '', False, ()][which]
+    rd = Coalesce(S.k if style == 0 else S['k'], default=UNBOUND)
+    r1 = glom(1, rd, scope={'k': val}, glom_debug=True)                       # passed via scope=
+    r2 = glom(1, (S(k=Val(val)), rd), glom_debug=True)                        # S(k=...)
+    r3 = glom(val, (A.k, Val(1), rd), glom_debug=True)                        # A.k binds the (falsy) target
+    r4 = glom(1, (S(k=Val('outer')), Spec(rd, scope={'k': val})), glom_debug=True)      # inner falsy value shadows
+    r5 = glom(1, (S(k=Val('outer')), (S(k=Val(val)), rd)), glom_debug=True)
+    reach('none_values')
+    got = [r1, r2, r3, r4, r5]
+    ok = all((g is val) or (g == val and type(g) is type(val)) for g in got)
+    return ok or fail(why='a falsy bound value must be readable', val=val, got=got, style=style)
+
+
 def ref_nearest(depth: int, a: int, b: int) -> bool:
     """Ref(name) resolves to the nearest enclosing Ref(name, spec), allowing recursion"""
     start()
@@ -324,7 +343,7 @@ class _Once:
 def obligations(tier):
     q = tier == 'quick'
     obs = []
-    kinds = ([0, 2, 3, 4, 7, LEAF] if q else list(range(NKIND)) + [LEAF])      # child kinds
+    kinds = ([0, 1, 2, 3, 4, 7, LEAF] if q else list(range(NKIND)) + [LEAF])      # child kinds
     ck = '(' + ' or '.join('{v} == %d' % k for k in kinds) + ')'
     for root in range(NKIND):
         for bk0 in range(4):
@@ -357,6 +376,7 @@ def obligations(tier):
     obs.append(Ob(switch_matchdict, pre='0 <= which <= 5', name='switch_matchdict'))
     obs.append(Ob(lifetime, pre='0 <= which <= 5', name='lifetime'))
     obs.append(Ob(ref_nearest, pre='0 <= depth <= 3', name='ref_nearest'))
+    obs.append(Ob(none_values, pre='0 <= which <= 4 and 0 <= style <= 1', name='none_values'))
     tp = ck.format(v='c0') + ' and ' + ck.format(v='c1') + ' and 0 <= b0 <= 3'
     fx = {'root': 0, 'bk0': 0, 'b1': -1, 'bk1': 0, 'v1': 0, 'style': 0}
     obs.append(Ob(visibility, fixed=fx, pre=tp, twin='seen', name='visibility_tuple'))
